@@ -248,6 +248,8 @@ func propSequence(t *rapid.T) {
 	var trace []string
 	rels := map[string]int{}
 	affinePrev := false
+	reuseScalar := rapid.Bool().Draw(t, "one-scalar-object")
+	var sObj *secp256k1.Scalar
 	for i := 0; i < n; i++ {
 		rel := gen.Sampled([]string{"same", "lambda", "lambda", "lambda^2", "neg", "neg-lambda", "double", "plus-G", "fresh", "sibling-rep", "sibling-rep"}).Draw(t, fmt.Sprintf("rel%d", i))
 		if i == 0 {
@@ -289,6 +291,46 @@ func propSequence(t *rapid.T) {
 		lp, ls := lib.Pt(pt), lib.Sc(s)
 		if given != nil {
 			lp = given
+		}
+		// Half of the sequences keep ONE scalar object and bring it to the next value in place, through a
+		// drawn mutator (callers update accumulators and blinded exponents in place): whatever a scalar
+		// object remembers about an earlier multiplication must not outlive its value.
+		if reuseScalar {
+			if sObj == nil {
+				sObj = secp256k1.NewScalarFrom(ls)
+			} else {
+				how := gen.Sampled([]string{"Set", "ConditionalSelect", "ConditionalNegate", "Negate", "Add", "Multiply", "SetCanonicalBytes", "Subtract"}).Draw(t, fmt.Sprintf("scalar-update%d", i))
+				old := lib.ScInt(sObj)
+				switch how {
+				case "Set":
+					sObj.Set(ls)
+				case "ConditionalSelect":
+					sObj.ConditionalSelect(sObj, ls, 1)
+				case "ConditionalNegate":
+					sObj.ConditionalNegate(lib.Sc(ref.NegM(s, ref.N)), 1)
+				case "Negate":
+					sObj.Negate(lib.Sc(ref.NegM(s, ref.N)))
+				case "Add":
+					sObj.Add(sObj, lib.Sc(ref.SubM(s, old, ref.N)))
+				case "Subtract":
+					sObj.Subtract(sObj, lib.Sc(ref.SubM(old, s, ref.N)))
+				case "Multiply":
+					if old.Sign() != 0 {
+						sObj.Multiply(sObj, lib.Sc(ref.MulM(s, ref.Inv0(old, ref.N), ref.N)))
+					} else {
+						sObj.Set(ls)
+					}
+				default:
+					if _, err := sObj.SetCanonicalBytes((*[32]byte)(ref.B32(s))); err != nil {
+						t.Fatalf("SetCanonicalBytes(%x): %v", s, err)
+					}
+				}
+				rels["scalar-object-updated-in-place:"+how]++
+			}
+			if got := lib.ScInt(sObj); got.Cmp(s) != 0 {
+				t.Fatalf("harness: scalar object holds %x, want %x", got, s)
+			}
+			ls = sObj
 		}
 		affinePrev = true
 		if rapid.IntRange(0, 3).Draw(t, fmt.Sprintf("faulted-before%d", i)) == 0 {
